@@ -59,6 +59,12 @@ func runC13(c *core.Ctx) {
 	}
 	c.Rule("R13.5", "the request rebuilt for a retry keeps keys, opaques and quiet flags aligned entry by entry (one origin, one variable per appended triple)", 1)
 	checkParallelSlicesIn(c, "R13.5", pkgFuncs(c, relBatched))
+	c.Rule("R13.6", "a caller that retries submits a reply channel created for that attempt: recovery closes the channels of the failed batch, a reused one yields a zero response (success) at once", 3)
+	checkReplyChannelPerAttempt(c, "R13.6")
+	c.Rule("R13.7", "the serialiser hands each written batch to the reader synchronously (unbuffered channel): no batch is on the wire that recovery does not know about", 1)
+	checkHandOffSynchronous(c, "R13.7")
+	c.Rule("R13.8", "the request rebuilt for a retry asks for every key still owed: each entry of the tracker table reaches the rebuilt request", 1)
+	checkRebuildKeepsEveryEntry(c, "R13.8")
 }
 
 // checkCountedOff (R13.4): every reply the reader delivers is counted off the channel's outstanding-reply count
@@ -463,5 +469,186 @@ func checkMarker(c *core.Ctx) {
 			}
 		})
 		c.Check(len(bad) == 0, "R13.3", key+"#marker-contained", c.P.Pos(fn.Pos()), fmt.Sprintf("%d pool errors handed on, each after the marker was ruled out", n), strings.Join(uniq(bad), "; "))
+	}
+}
+
+// checkReplyChannelPerAttempt: recovery closes every reply channel of a failed batch after sending the retry marker.
+// A caller that submits again must do so on a channel of its own attempt: receiving on the closed one yields a zero
+// response at once (reported as success before the backend saw the request), and the reader later sends on it.
+func checkReplyChannelPerAttempt(c *core.Ctx, rule string) {
+	for _, fn := range pkgFuncs(c, relBatched) {
+		loops := ssax.Loops(fn)
+		counts := map[string]int{}
+		ssax.Instrs(fn, func(ins ssa.Instruction) {
+			cc := ssax.CallOf(ins)
+			if cc == nil {
+				return
+			}
+			for _, a := range cc.Args {
+				if ssax.ShortType(a.Type()) != relBatched+".request" {
+					continue
+				}
+				loop := ssax.InnermostLoop(loops, ins.Block())
+				if loop == nil {
+					continue // a single submission
+				}
+				key := ordinalKey(counts, core.FuncName(fn)+"#reply-channel")
+				vals := fieldStoreVals(a, "reschan")
+				var bad []string
+				n := 0
+				if len(vals) == 0 {
+					bad, n = loopFresh(c, fn, loop, a, "reschan")
+				}
+				for _, v := range vals {
+					b, k := loopFresh(c, fn, loop, v)
+					bad, n = append(bad, b...), n+k
+				}
+				if n == 0 {
+					c.Undecided(rule, key, c.P.Pos(ins.Pos()), "cannot find the reply channel of the submitted request")
+					continue
+				}
+				c.Check(len(bad) == 0, rule, key, c.P.Pos(ins.Pos()), "each attempt submits a reply channel created in that attempt",
+					"the request is submitted again on a reply channel from an earlier attempt: "+strings.Join(uniq(bad), ", ")+"; recovery closed that channel, so the retry reads a zero response (success) at once and the reader later sends on a closed channel")
+			}
+		})
+	}
+}
+
+// checkHandOffSynchronous: the serialiser hands each written batch to the reader over a channel; recovery relies on
+// that hand-off being synchronous - when the reader fails on batch N, batch N+1 has not been written to the dead socket
+// yet. With a buffered channel N+1 is written early, is never handed to recovery and its callers get no outcome.
+func checkHandOffSynchronous(c *core.Ctx, rule string) {
+	ser := findFunc(c, relBatched, "(*conn).batcher", rolePoolSerialiser)
+	rd := findFunc(c, relBatched, "(*conn).reader", rolePoolReader)
+	if ser == nil || rd == nil {
+		c.Undecided(rule, "batched#hand-off", "-", "serialiser / reader not found")
+		return
+	}
+	// the channel field sent on by the serialiser and received from by the reader
+	sent := map[string]bool{}
+	ssax.Instrs(ser, func(ins ssa.Instruction) {
+		if s, ok := ins.(*ssa.Send); ok {
+			if _, f, ok := fieldRead(s.Chan); ok {
+				sent[f] = true
+			}
+		}
+	})
+	var field string
+	ssax.Instrs(rd, func(ins ssa.Instruction) {
+		if u, ok := ins.(*ssa.UnOp); ok && u.Op == token.ARROW {
+			if _, f, ok := fieldRead(u.X); ok && sent[f] {
+				field = f
+			}
+		}
+	})
+	if field == "" {
+		c.Undecided(rule, "batched#hand-off", "-", "no channel field is sent on by the serialiser and received from by the reader")
+		return
+	}
+	n := 0
+	for _, fn := range pkgFuncs(c, relBatched) {
+		ssax.Instrs(fn, func(ins ssa.Instruction) {
+			mk, ok := ins.(*ssa.MakeChan)
+			if !ok || mk.Referrers() == nil {
+				return
+			}
+			for _, r := range *mk.Referrers() {
+				st, ok := r.(*ssa.Store)
+				if !ok || st.Val != ssa.Value(mk) {
+					continue
+				}
+				if f, _ := ssax.FieldName(st.Addr); f != field {
+					continue
+				}
+				n++
+				size, isC := ssax.ConstInt(mk.Size)
+				c.Check(isC && size == 0, rule, core.FuncName(fn)+"#hand-off:"+field, c.P.Pos(mk.Pos()), "the serialiser-to-reader channel is unbuffered",
+					fmt.Sprintf("the channel %s over which the serialiser hands written batches to the reader is buffered: the next batch is written to the socket before the reader has taken over the previous one; if the connection fails then, that batch is never recovered and its callers get no outcome", field))
+			}
+		})
+	}
+	if n == 0 {
+		c.Undecided(rule, "batched#hand-off:"+field, "-", "no make(chan) is stored into the field")
+	}
+}
+
+// checkRebuildKeepsEveryEntry: the request for a retry is rebuilt from the table of replies still owed. Every entry of
+// that table must reach the rebuilt request: on each path through the body of the loop that ranges over the table the
+// entry's key is appended to a slice. (Assumption: the per-entry counts are positive - entries are deleted when their
+// count reaches zero - so a loop `for i < count` around the append runs at least once.)
+func checkRebuildKeepsEveryEntry(c *core.Ctx, rule string) {
+	pv := &ssax.Prov{}
+	found := 0
+	for _, fn := range pkgFuncs(c, relBatched) {
+		res := fn.Signature.Results()
+		if fn.Parent() != nil || res.Len() != 1 || types.TypeString(res.At(0).Type(), nil) != pCommon+".GetRequest" {
+			continue
+		}
+		loops := ssax.Loops(fn)
+		ssax.Instrs(fn, func(ins ssa.Instruction) {
+			rg, ok := ins.(*ssa.Range)
+			if !ok {
+				return
+			}
+			if _, isMap := rg.X.Type().Underlying().(*types.Map); !isMap {
+				return
+			}
+			// the loop whose header holds the Next of this range
+			var next *ssa.Next
+			for _, r := range *rg.Referrers() {
+				if n, ok := r.(*ssa.Next); ok {
+					next = n
+				}
+			}
+			if next == nil {
+				return
+			}
+			loop := ssax.InnermostLoop(loops, next.Block())
+			if loop == nil || loop.Header != next.Block() {
+				return
+			}
+			found++
+			key := core.FuncName(fn) + "#every-entry-rebuilt"
+			keeps := func(ins ssa.Instruction) bool {
+				cc := ssax.CallOf(ins)
+				if cc == nil {
+					return false
+				}
+				if b, ok := cc.Value.(*ssa.Builtin); !ok || b.Name() != "append" || len(cc.Args) < 2 {
+					return false
+				}
+				for _, s := range pv.Sources(cc.Args[1]) {
+					if s.Kind == "rangekey" {
+						return true
+					}
+				}
+				return false
+			}
+			inner := map[*ssa.BasicBlock]*ssax.Loop{}
+			for _, l := range loops {
+				if l != loop && loop.Blocks[l.Header] {
+					inner[l.Header] = l
+				}
+			}
+			r := ssax.Reach{
+				Target: func(ins ssa.Instruction) bool { return ins == ssa.Instruction(next) },
+				Avoid:  keeps,
+				Within: loop.Blocks,
+				AvoidEdge: func(from, to *ssa.BasicBlock) bool {
+					l := inner[from]
+					return l != nil && !l.Blocks[to] // leaving a counted inner loop: assumed to have run (counts are positive)
+				},
+			}
+			hit, trail := r.From(next)
+			if hit != nil {
+				c.Violate(rule, key, c.P.Pos(next.Pos()), "an entry of the table of replies still owed can be passed over without its key being appended to the rebuilt request: after a connection failure that key is never asked for again and the caller gets an incomplete answer without an error",
+					ssax.BlockTrail(c.P.Fset, trail)...)
+			} else {
+				c.OK(rule, key, c.P.Pos(next.Pos()), "every path through the loop body appends the entry's key")
+			}
+		})
+	}
+	if found == 0 {
+		c.Undecided(rule, "batched#rebuild", "-", "no function rebuilding a GetRequest from a map found")
 	}
 }
